@@ -93,6 +93,23 @@ def replay_det(ctx, metrics, c, n):
                 if not close((1 - kge) ** 2, d2, 1e-8):
                     ctx.violation("kge:definition:" + site, "(1-kge)^2=%r, definition %r" % ((1 - kge) ** 2, d2), dict(case, **kw))
                     return
+    # scale law: the same pairs repeated r times in a row (a series of 600+ values) have the same means, variances and ranks,
+    # hence the same scores - with and without incomplete pairs
+    if n % 5 == 0:
+        r = 600 // len(obs) + 2
+        for ex in modes:
+            for key, f, kw in (("bias_std", metrics.bias, {"type": "standard"}), ("bias_norm", metrics.bias, {"type": "normalised"}), ("nse", metrics.nse, {})):
+                if isnanr(e[key]):
+                    continue
+                v = float(call(f, np.tile(obs, r), np.tile(sim, r), excludenull=ex, **kw))
+                if not close(v, q(e[key])):
+                    ctx.violation("%s:long-series" % key.split("_")[0], "%s=%r for the pairs repeated %d times, definition gives %s (excludenull=%s)" %
+                                  (key, v, r, e[key], ex), dict(case, replicated=r, excludenull=ex))
+                    return
+            k1, k2 = float(call(metrics.kge, obs, sim, excludenull=ex)), float(call(metrics.kge, np.tile(obs, r), np.tile(sim, r), excludenull=ex))
+            if not (math.isnan(k1) and math.isnan(k2)) and not close(k2, k1):
+                ctx.violation("kge:long-series", "kge %r for the pairs repeated %d times, %r once" % (k2, r, k1), dict(case, replicated=r, excludenull=ex))
+                return
     if not hasnan:
         # the scores do not depend on how the caller stores the series (list, Series, float32, integer, strided)
         for f, key in ((metrics.nse, "nse"), (metrics.bias, "bias_std"), (metrics.kge, None)):
@@ -117,23 +134,6 @@ def replay_det(ctx, metrics, c, n):
             if not (abs(v1 - v2) <= 1e-12 * max(1.0, abs(v1)) or (math.isnan(v1) and math.isnan(v2))):
                 ctx.violation("%s:column-shape" % key, "%r for [n,1] columns, %r for the same series as [n] vectors" % (v2, v1), case)
                 return
-        # scale law: the same pairs repeated r times in a row (a series of 600+ values) have the same means, variances and ranks,
-        # hence the same scores - with and without incomplete pairs
-        if n % 5 == 0:
-            r = 600 // len(obs) + 2
-            for ex in modes:
-                for key, f, kw in (("bias_std", metrics.bias, {"type": "standard"}), ("bias_norm", metrics.bias, {"type": "normalised"}), ("nse", metrics.nse, {})):
-                    if isnanr(e[key]):
-                        continue
-                    v = float(call(f, np.tile(obs, r), np.tile(sim, r), excludenull=ex, **kw))
-                    if not close(v, q(e[key])):
-                        ctx.violation("%s:long-series" % key.split("_")[0], "%s=%r for the pairs repeated %d times, definition gives %s (excludenull=%s)" %
-                                      (key, v, r, e[key], ex), dict(case, replicated=r, excludenull=ex))
-                        return
-                k1, k2 = float(call(metrics.kge, obs, sim, excludenull=ex)), float(call(metrics.kge, np.tile(obs, r), np.tile(sim, r), excludenull=ex))
-                if not (math.isnan(k1) and math.isnan(k2)) and not close(k2, k1):
-                    ctx.violation("kge:long-series", "kge %r for the pairs repeated %d times, %r once" % (k2, r, k1), dict(case, replicated=r, excludenull=ex))
-                    return
         # invariances (exact maps): NSE under a common affine map, bias / KGE under a common positive scaling
         a, b = [(2.0, 3.0), (0.5, -7.0), (-4.0, 1.0), (1.0, 2.0 ** 24), (-0.25, -2.0 ** 27), (2.0 ** 30, 2.0 ** 52)][n % 6]
         v = float(call(metrics.nse, a * obs + b, a * sim + b))
@@ -264,11 +264,11 @@ def spec_to_code(ctx, metrics):
         if n < 100:
             raise Machinery("Scores generator %s: %d cases" % (part, n))
         # scale law (additivity): the table of a concatenation of series is the sum of their tables; the cases without the highest
-        # category come first, so that long stretches of the series miss a category
+        # observed category come first, so that long stretches of the series miss a category
         for ncat, cs in sorted(tiles.items()):
-            cs = sorted(cs[:1500], key=lambda c: (ncat - 1) in c["obs"] or (ncat - 1) in c["sim"])
-            if sum(len(c["obs"]) for c in cs) < 700:
-                continue
+            cs = cs[:1500]
+            rep = -(-1200 // max(1, sum(len(c["obs"]) for c in cs)))
+            cs = sorted(cs * rep, key=lambda c: (ncat - 1) in c["obs"])
             obs = np.concatenate([np.array(c["obs"], dtype=np.int64) for c in cs])
             sim = np.concatenate([np.array(c["sim"], dtype=np.int64) for c in cs])
             exp = np.sum([np.array(c["table"], dtype=np.int64) for c in cs], axis=0).tolist()
@@ -277,6 +277,7 @@ def spec_to_code(ctx, metrics):
             except Exception as ex:
                 ctx.violation("confusion_matrix:exception", repr(ex), {"ncat": ncat, "n": int(len(obs))})
                 continue
+            ctx.part("confusion_long_series_ncat%d" % ncat, cases=len(cs), pairs=int(len(obs)))
             if got != exp:
                 ctx.violation("confusion_matrix:long-series", "table %s for %d concatenated cases (%d pairs), the sum of their tables is %s" %
                               (got, len(cs), len(obs), exp), {"ncat": ncat, "n": int(len(obs)), "obs": obs[:40].tolist(), "sim": sim[:40].tolist()})
